@@ -247,6 +247,12 @@ theorem set_spec (env : Env) (d : Decl) (name v prio : Cps) (newp : Pty) (h : Na
     simp only [hr, Bool.false_eq_true, if_false, hmk, hw, if_true]
     cases effective (props d.seq) (normalize name) <;> rfl
 
+/-- whatever `setProperty` does (update, append, removal for an empty value, rejection), comments and unknown rules
+of the block stay where they are -/
+theorem set_keeps_comments (env : Env) (d : Decl) (name : Cps) (value : Option Cps) (prio : Cps) (repl : Bool)
+    (h : NameInv d.seq) : nonProps (setProperty env d name value prio true repl).st.seq = nonProps d.seq :=
+  (set_refines env d name value prio repl h).2.2.2
+
 /-- `replace=False` always appends ("add-duplicate") -/
 theorem add_duplicate_spec (env : Env) (d : Decl) (name v prio : Cps) (newp : Pty) (h : NameInv d.seq)
     (hr : d.readonly = false) (hv : v ≠ []) (hmk : mkProperty env name v prio = .ok newp) (hw : newp.wf = true) :
@@ -311,8 +317,8 @@ theorem step_refines (env : Env) (d : Decl) (c : Call) (h : NameInv d.seq) :
   cases c with
   | mk raising op =>
     cases op with
-    | set n v p repl => exact set_refines _ d n v p repl h
-    | setItem n v p => exact set_refines _ d n v (p.getD []) true h
+    | set n v p repl => exact ⟨(set_refines _ d n v p repl h).1, (set_refines _ d n v p repl h).2.1, (set_refines _ d n v p repl h).2.2.1⟩
+    | setItem n v p => exact ⟨(set_refines _ d n v (p.getD []) true h).1, (set_refines _ d n v (p.getD []) true h).2.1, (set_refines _ d n v (p.getD []) true h).2.2.1⟩
     | remove n norm =>
       have := remove_refines d n norm h
       exact ⟨this.1, this.2, remove_nameInv d n norm h⟩
@@ -365,6 +371,17 @@ example :
 attribute generated for it (`cssproperties.py:127-148`) addresses the property itself -/
 theorem dom_names_roundtrip : ∀ n ∈ CssVerif.Gen.C10.propertyNames, toCSS (toDOM n) = n := by
   decide +kernel
+
+/-- T10.6 (general): every name without capitals in which no single-letter word is directly followed by another
+hyphen-letter (`-x-y`) survives the round trip — not only the names known today -/
+theorem dom_names_general (n : Cps) (h1 : noUpper n = true) (h2 : noAdj n = true) : toCSS (toDOM n) = n :=
+  toCSS_toDOM_general n h1 h2
+
+/-- every known name is in the scope of the general lemma (non-vacuity), and the side condition is needed -/
+theorem dom_names_in_general_scope :
+    (∀ n ∈ CssVerif.Gen.C10.propertyNames, noUpper n = true ∧ noAdj n = true) ∧
+    toCSS (toDOM (cps "a-b-c")) ≠ cps "a-b-c" := by
+  refine ⟨by decide +kernel, by decide⟩
 
 /-- the hand-written scanners `toDOM` / `toCSS` transcribe exactly these two regular expressions; if the source
 changes either, this stops building and the check goes down the "obligation broken" path -/
